@@ -9,11 +9,29 @@ def A(): return native.algopy()
 def rnd_arr(rng, shape, den=8): return numpy.array([native.rnd(rng, -1, 1, den) for _ in range(int(numpy.prod(shape, dtype=int)))]).reshape(shape)
 
 
+PATTERN = ['dense']
 def poly(rng, D, P, shp, base=None):
+    """random polynomial data; PATTERN[0] selects the sparsity of the higher coefficients:
+       dense | linear (only A_0 + t A_1, all higher orders exactly zero in every direction) | constant (A_0 only) | gap (A_1 = 0)"""
     x = rnd_arr(rng, (D, P) + tuple(shp))
+    if PATTERN[0] == 'linear': x[2:] = 0
+    elif PATTERN[0] == 'constant': x[1:] = 0
+    elif PATTERN[0] == 'gap' and D > 2: x[1] = 0
     if base is not None:
         for p in range(P): x[0, p] = base(p)
     return x
+
+
+def with_patterns(gen):
+    def run(rng, tier):
+        for pat in ('dense', 'linear', 'gap', 'constant'):
+            PATTERN[0] = pat
+            try:
+                for case, fail in gen(rng, tier):
+                    if pat != 'dense' and case.get('D', 1) < 3: continue
+                    yield dict(case, coefficients=pat), fail
+            finally: PATTERN[0] = 'dense'
+    return run
 
 
 def close(a, b, tol=1e-8):
@@ -251,3 +269,7 @@ def c08(rng, tier):
                 elif not close(PA.matmul(T(V.data), V.data), ident(D, P, V.data.shape[3]), 1e-7): f = 'V^T V != I'
                 elif not all(numpy.all(numpy.diff(s.data[0, p]) <= 1e-9) and numpy.all(s.data[0, p] >= -1e-12) for p in range(P)): f = 's_0 not descending / negative'
                 yield case, f
+
+
+c07_all = with_patterns(c07)
+c08_all = with_patterns(c08)
